@@ -62,7 +62,8 @@ def required(tier):
            'two-tables:same-grid-other-values', 'state-object:reused-across-models',
            'threads:four-evaluating-one-model',
            'result-object:modified-by-caller-then-same-state-again',
-           'ptf:through-the-command-line-tool-into-an-existing-file']
+           'ptf:through-the-command-line-tool-into-an-existing-file',
+           'table:values-do-not-vary-with-mass']
     return {'classes': cl, 'evaluations': 3000}
 
 
@@ -313,6 +314,8 @@ def run_shard(spec, rec):
                     raise Mismatch('a valid performance table was refused at load',
                                    {'error': f'{type(e).__name__}: {str(e)[:200]}', **case})
                 check_table(model, t, rng, 'generated', case)
+                if t.get('mass_independent_values'):
+                    rec.cls('table:values-do-not-vary-with-mass')
                 # a second table on the SAME (FL, mass) grid with other values, evaluated in the
                 # same process: results must come from the table that is being evaluated
                 t2 = perfgen.regen_values(rng, t)
